@@ -18,7 +18,7 @@ ASSUMPTIONS = ["numpy / CPython behave as documented", "grid shapes are passed a
                "lattice_dim=2 only"]
 NSHARDS = {"quick": 16, "thorough": 16}
 THRESHOLDS = {
-    "quick": {"repotests:ambient:gen:gen_dfs?repotests:runs": 50, "c01:gen_dfs": 200, "c01:gen_prim": 200, "c01:gen_wilson": 200, "c01:gen_percolation": 200,
+    "quick": {"repotests:ambient:gen:gen_dfs?repotests:runs": 50, "c01:percolation-volume": 150, "c01:extreme-draws": 40, "c01:shape-dtype:int8": 300, "c01:shape-dtype:uint8": 300, "c01:gen_dfs": 200, "c01:gen_prim": 200, "c01:gen_wilson": 200, "c01:gen_percolation": 200,
               "c01:gen_dfs_percolation": 200, "c01:oblong": 1, "c01:one-by-n": 1, "c01:p0": 1, "c01:p1": 1,
               "c01:spanning-checked:dfs": 100, "c01:spanning-checked:wilson": 100, "c01:consumed-stream": 50,
               "hits:gen_dfs": 1, "hits:gen_wilson": 1, "hits:gen_percolation": 1, "hits:gen_dfs_percolation": 1,
@@ -64,8 +64,14 @@ def run(ctx):
                     case = dict(gen=gen, shape=(R, C), kwargs=kw, rng_seed=cseed, consumed=consumed, via_map=via_map)
                     genwork.seed_library_rngs(cseed, consumed)
                     fn = GENERATORS_MAP[gen] if via_map else getattr(LatticeMazeGenerators, gen)
+                    # the grid shape as an array of any integer dtype that holds it (the dataset layer passes int32/int64; int8 and
+                    # uint8 are what coordinate arrays elsewhere in the library use)
+                    dts = [np.int64, np.int32, np.int16] + ([np.int8] if max(R, C) < 128 else []) + ([np.uint8] if max(R, C) < 256 else [])
+                    dt = dts[i % len(dts)] if variant == 0 or gen != "gen_wilson" else np.int64
+                    case["shape_dtype"] = np.dtype(dt).name
+                    ctx.tally(f"c01:shape-dtype:{np.dtype(dt).name}")
                     with ctx.guard(f"C01/{gen}/call", case), call_watchdog(ctx, 120, f"C01/{gen} {R}x{C}"):
-                        maze = fn(np.array([R, C]), **kw)
+                        maze = fn(np.array([R, C], dtype=dt), **kw)
                         # (if the watchdog fires the block is left here and the case is reported as inconclusive)
                         ctx.ev()
                         oracles.check_c01(ctx, gen, (R, C), kw, maze, case)
@@ -79,8 +85,97 @@ def run(ctx):
                             ctx.nontrivial(gen, R, C, sorted(kw.items(), key=repr), maze.connection_list)
                         if i % 997 == 0 or (ctx.shard == 0 and len(ctx.samples) < 3):
                             ctx.sample(dict(case=case, n_connections=int(maze.connection_list.sum())))
+    _percolation_volume(ctx)
+    _percolation_extreme_draws(ctx)
     # library-internal traffic: a few datasets (ambient monitor judges every generator call they make)
     _dataset_traffic(ctx)
+
+
+def _percolation_extreme_draws(ctx):
+    """'for every RNG state the generator can be entered with': the uniform draws a percolation generator takes from numpy's
+    global RNG are replaced by legal but extreme values - 0.0 (the smallest possible draw) for p=0, the largest double below
+    1.0 for p=1, and a mixture of both - all of them values the real generator can return.  p=0 must still give no connection
+    and p=1 every lattice edge.  If the generator does not draw through the wrapped functions nothing is injected (tallied)."""
+    from maze_dataset.generation.generators import LatticeMazeGenerators
+
+    top = float(np.nextafter(1.0, 0.0))
+    names = ["rand", "random", "random_sample", "uniform"]
+    real = {n: getattr(np.random, n) for n in names}
+    state = dict(mode=None, hits=0)
+
+    def wrap(name):
+        def f(*a, **kw):
+            r = real[name](*a, **kw)
+            if state["mode"] is None or not isinstance(r, np.ndarray) or r.dtype.kind != "f":
+                return r
+            state["hits"] += 1
+            if state["mode"] == "top":
+                r[...] = top
+            elif state["mode"] == "zero":
+                r[...] = 0.0
+            else:
+                flat = r.reshape(-1)
+                flat[::2] = top
+                flat[1::2] = 0.0
+            return r
+        return f
+
+    cases = []
+    for k, (R, C) in enumerate([(1, 1), (1, 5), (4, 1), (2, 2), (3, 4), (5, 5), (8, 3), (12, 12)]):
+        for gen in ("gen_percolation", "gen_dfs_percolation"):
+            for p, mode in ((1, "top"), (1.0, "top"), (0, "zero"), (0.0, "zero"), (1.0, "mix"), (0.0, "mix")):
+                cases.append((R, C, gen, p, mode))
+    for j, (R, C, gen, p, mode) in enumerate(cases):
+        if not ctx.mine(j):
+            continue
+        case = dict(gen=gen, shape=(R, C), kwargs=dict(p=p), injected_draws=mode)
+        for n in names:
+            setattr(np.random, n, wrap(n))
+        state["mode"], state["hits"] = mode, 0
+        try:
+            with ctx.guard(f"C01/{gen}/call", case):
+                genwork.seed_library_rngs(j)
+                maze = getattr(LatticeMazeGenerators, gen)(np.array([R, C]), p=p)
+                state["mode"] = None
+                ctx.ev(); ctx.tally("c01:extreme-draws")
+                ctx.tally("c01:extreme-draws:injected" if state["hits"] else "c01:extreme-draws:generator-did-not-draw-through-the-wrapped-functions")
+                oracles.check_c01(ctx, gen, (R, C), dict(p=p), maze, case)
+        finally:
+            state["mode"] = None
+            for n in names:
+                setattr(np.random, n, real[n])
+
+
+def _percolation_volume(ctx):
+    """p=0 and p=1 are exact statements about *every* lattice edge: larger grids in some volume, judged with array arithmetic only.
+    (The generator costs ~0.1 ms per cell - its component search is a Python loop - so per-edge events rarer than about 1e-6 are
+    out of reach of volume; the extreme-draw workload below reaches them directly.)"""
+    from maze_dataset.generation.generators import LatticeMazeGenerators
+
+    n = 160 if ctx.quick else 1600
+    for j in range(n):
+        if not ctx.mine(j):
+            continue
+        R, C = [(40, 40), (20, 90), (64, 16), (33, 33)][j % 4] if ctx.quick or j % 40 else (300, 300)
+        p = [1, 1.0, 0, 0.0, 1.0, 1.0][j % 6]
+        seed = ctx.case_seed("vol", j) % (2**32)
+        np.random.seed(seed)
+        case = dict(gen="gen_percolation", shape=(R, C), kwargs=dict(p=p), numpy_seed=seed)
+        with ctx.guard("C01/gen_percolation/call", case):
+            cl = LatticeMazeGenerators.gen_percolation(np.array([R, C]), p=p).connection_list
+            ctx.ev(); ctx.tally("c01:percolation-volume"); ctx.tally("c01:percolation-volume-edge-draws", 2 * R * C)
+            ok_shape = isinstance(cl, np.ndarray) and cl.dtype == np.bool_ and cl.shape == (2, R, C)
+            if not ctx.check(ok_shape, "C01/gen_percolation/shape", f"{getattr(cl, 'shape', None)} {getattr(cl, 'dtype', None)}", case):
+                continue
+            ctx.check(not cl[0, -1, :].any() and not cl[1, :, -1].any(), "C01/gen_percolation/edge-leaves-grid", "", case)
+            n_conn = int(cl.sum())
+            lattice = R * (C - 1) + C * (R - 1)
+            if p == 0:
+                ctx.check(n_conn == 0, "C01/gen_percolation/p0-has-connection", f"{n_conn} connections on {R}x{C}", case)
+            else:
+                miss = lattice - int(cl[0, :-1, :].sum()) - int(cl[1, :, :-1].sum())
+                ctx.check(miss == 0, "C01/gen_percolation/p1-missing-edge", lambda: f"{miss} of {lattice} lattice edges missing on {R}x{C} "
+                          f"(first at {np.argwhere(~cl[0, :-1, :])[:1].tolist() or np.argwhere(~cl[1, :, :-1])[:1].tolist()})", case)
 
 
 def _dataset_traffic(ctx):
